@@ -2,6 +2,7 @@ package main
 
 import (
 	"fmt"
+	"math"
 	"go/constant"
 	"go/token"
 	"go/types"
@@ -113,6 +114,7 @@ type Enc struct {
 	spec     map[string]string        // parameter name -> type string (from the property config)
 	litOf       map[string]string // SMT symbol of a string literal -> its Go value
 	sortedByAdded bool
+	assertHit   map[int]bool
 	birth       map[string][2]string // array incarnation -> allocation watermarks (own, callee) no later than which it came into being
 	cellVars    map[string]ssa.Value
 	storeOrd    map[*ssa.Store]int
@@ -693,7 +695,7 @@ func (e *Enc) constVal(c *ssa.Const) *Val {
 	case constant.Int:
 		if i, ok := constant.Int64Val(c.Value); ok {
 			if b, ok := t.Underlying().(*types.Basic); ok && b.Info()&types.IsFloat != 0 {
-				return &Val{typ: t, c: []string{e.declare(fmt.Sprintf("flt!lit!%d", i), "Flt")}}
+				return &Val{typ: t, c: []string{fpLit(float64(i), t)}}
 			}
 			return &Val{typ: t, c: []string{num(i)}}
 		}
@@ -702,7 +704,8 @@ func (e *Enc) constVal(c *ssa.Const) *Val {
 	case constant.String:
 		return &Val{typ: t, c: []string{e.strLit(constant.StringVal(c.Value))}}
 	case constant.Float:
-		return &Val{typ: t, c: []string{e.declare("flt!lit!"+c.Value.ExactString(), "Flt")}}
+		f, _ := constant.Float64Val(c.Value)
+		return &Val{typ: t, c: []string{fpLit(f, t)}}
 	}
 	e.unsupported("const %v", c)
 	return e.freshVal("const", t)
@@ -961,4 +964,14 @@ func (e *Enc) epochArr(st *State, name, fullSort string) string {
 type mergeInfo struct {
 	preds []State
 	conds []string
+}
+
+// fpLit: the IEEE-754 value of a Go floating-point constant as an SMT FloatingPoint literal (exact bits).
+func fpLit(f float64, t types.Type) string {
+	if b, ok := t.Underlying().(*types.Basic); ok && b.Kind() == types.Float32 {
+		bits := math.Float32bits(float32(f))
+		return fmt.Sprintf("(fp #b%01b #b%08b #b%023b)", bits>>31, (bits>>23)&0xff, bits&0x7fffff)
+	}
+	bits := math.Float64bits(f)
+	return fmt.Sprintf("(fp #b%01b #b%011b #b%052b)", bits>>63, (bits>>52)&0x7ff, bits&0xfffffffffffff)
 }
